@@ -119,7 +119,7 @@ def mixed_rank_graph(
 
     reference_model_features = {}
     if is_prior_heuristic(args):
-        reference_model_features = [(' AND ').join(tuple(sorted(item.split(',')))) for item in extract_features_from_reference_JSON(args.reference_model_JSON, all_features=True)]
+        reference_model_features = [(' AND ').join(tuple(sorted(item.split(',')))) for item in sorted(extract_features_from_reference_JSON(args.reference_model_JSON, all_features=True))]
         combinations = [comb for comb in combinations if comb[0] not in reference_model_features and comb[1] not in reference_model_features]
 
     combinations = prior_combinations_sample(combinations, args)
@@ -207,7 +207,7 @@ def compute_combined_features(
 
     if args.reference_model_JSON != '':
         model_combinations = extract_features_from_reference_JSON(args.reference_model_JSON, combined_features_only=True)
-        model_combinations = [tuple(sorted(combination.split(','))) for combination in model_combinations]
+        model_combinations = [tuple(sorted(combination.split(','))) for combination in sorted(model_combinations)]
         if not is_prior_heuristic(args):
             full_combination_space = model_combinations
 
